@@ -11,10 +11,16 @@ renumbering lemma, CompactExpressions sound/idempotent/well-formed, CompactUnuse
      extracted reference interpreter on inputs from a boundary pool, for every pass
      including InlineUserFunctions and the DXIL pipeline (sroa, mem2reg, dce);
   idempotence (AFTER2 == AFTER structurally), naga's own validator on AFTER.
+Programs: hand-written (lib/c13progs.py), corpus shaders, and a GENERATED family (lib/c13gen.py:
+typed random compute programs of lib/wgslgen.py with calls in continuing blocks, multi-selector
+switch clauses with calls in case bodies, small inlinable helpers; run on generated buffer contents).
 """
 import json
 import os
 
+import re
+
+import c13gen
 import c13lib as L
 import c13progs
 import gen
@@ -40,6 +46,29 @@ NO_IDEMPOTENCE = {"dxil_prepare", "stage:sroa", "stage:mem2reg", "stage:dce", "d
 UNMODELLED_MARKERS = ("not modelled", "unresolved override", "handle-space global", "literal kind not modelled",
                       "zero:", "abstract")
 FUEL = 3000
+GEN_FUEL = 6000         # generated programs nest loops
+
+
+def norm(x):
+    """a message / path with every number replaced (stable part of a violation key for generated programs)"""
+    return re.sub(r"\d+", "N", str(x))[:90]
+
+
+def compare_runs(before, after, a, b, gl):
+    """a, b: results of the reference interpreter on BEFORE / AFTER (both ok), gl: the inputs by global name.
+    -> None if the observable results agree, else (class of disagreement, description)"""
+    ga, gb = L.named_globals(before, a), L.named_globals(after, b)
+    bad = [n for n in gb if ga.get(n) != gb[n]]
+    if bad:
+        return "global-differs", "final contents of global '%s' differ: BEFORE %s, AFTER %s" % (
+            bad[0], json.dumps(ga.get(bad[0]))[:300], json.dumps(gb[bad[0]])[:300])
+    gone = [n for n in ga if n not in gb and gl.get(n) is not None and ga[n] != gl[n]]
+    if gone:
+        return "removed-global-written", "global '%s' no longer exists AFTER the pass although BEFORE changes its contents from %s to %s" % (
+            gone[0], json.dumps(gl[gone[0]])[:300], json.dumps(ga[gone[0]])[:300])
+    if a.get("ret") != b.get("ret"):
+        return "ret-differs", "returned values differ: BEFORE %s, AFTER %s" % (json.dumps(a.get("ret"))[:300], json.dumps(b.get("ret"))[:300])
+    return None
 
 
 _T0 = [None]
@@ -65,6 +94,23 @@ def reorder_cause(after, after2):
                 and after.get("TypeUseOrder") and sorted(json.dumps(t, sort_keys=True) for t in after["Types"]) != [] \
                 and len(after["Types"]) == len(after2["Types"]):
             return "stale-type-use-order"
+    except Exception:
+        pass
+    return None
+
+
+def type_chain_cause(after, after2):
+    """CompactTypes marks what ANY type of the arena refers to, dead types included: a type referenced only by a type
+    that this application removes (the pointee of the pointer-typed parameter of a removed function, ...) survives the
+    application and is removed by the next one.  The second application only drops further types."""
+    try:
+        def sig(t):
+            return (t["Inner"]["_t"], t.get("Name"))
+        ta, tb = [sig(t) for t in after["Types"]], [sig(t) for t in after2["Types"]]
+        if len(tb) < len(ta):
+            it = iter(ta)
+            if all(any(x == y for y in it) for x in tb):        # tb is a subsequence of ta
+                return "dead-type-chain"
     except Exception:
         pass
     return None
@@ -128,9 +174,16 @@ def lower_hook_in_sync():
 def run(ctx):
     _viol = ctx.violation
 
+    seen_gen_keys = set()
+
     def violation(what, files=None, key=None, **kw):
         files = dict(files or {})
         if key is not None:
+            if key.startswith("gen:"):
+                # keys of the generated family name a class of failure, not a program: report each class once
+                if key in seen_gen_keys:
+                    return False
+                seen_gen_keys.add(key)
             files["key.txt"] = key + "\n"
         return _viol(what, files=files, key=key, **kw)
     ctx.violation = violation
@@ -167,12 +220,37 @@ def run(ctx):
     corpus = nagarun.corpus()
     ncorpus = ctx.scale(24, len(corpus))
     corp = rng.shuffle(list(corpus))[:ncorpus]
-    if os.environ.get("VERIF_C13_ONLY") == "hand":
+    only = os.environ.get("VERIF_C13_ONLY")
+    if only in ("hand", "gen"):
         corp = []
-    programs = [("hand/" + n, s) for n, s in c13progs.PROGRAMS] + corp
+    hand = [("hand/" + n, s) for n, s in c13progs.PROGRAMS] if only != "gen" else []
+    # generated family (lib/c13gen.py): "general" programs for the passes of package ir and the DXIL inlining step,
+    # loop-free struct-free ones for all passes including the DXIL optimisation stages
+    n_general, n_loopfree = (0, 0) if only == "hand" else ctx.scale((40, 20), (400, 200))
+    env_n = os.environ.get("VERIF_C13_GEN")
+    if env_n:
+        n_general, n_loopfree = [int(x) for x in env_n.split(",")]
+    gen_cases = c13gen.generate(ctx.rng.fork("generated"), n_general, n_loopfree, inputs_per_prog=ctx.scale(2, 4))
+    gen_by_name = {c["name"]: c for c in gen_cases}
+    programs = hand + corp + [(c["name"], c["src"]) for c in gen_cases]
     passes = LOWERED + RAW
+    gen_raw = RAW if ctx.thorough else ["raw:lower_pipeline"]
+    gen_general = [p for p in LOWERED if p not in c13gen.DXIL_STAGES] + gen_raw
+
+    def passes_of(name):
+        c = gen_by_name.get(name)
+        if c is None:
+            return passes
+        return LOWERED + gen_raw if c["family"] == "loopfree" else gen_general
+
+    def vkey(kind, p, name, detail=None):
+        """violation key: hand-written and corpus programs are named; a generated program is described by the pass and
+        the class of failure (numbers removed), never by its index"""
+        if name in gen_by_name:
+            return "gen:%s:%s" % (kind, ":".join(x for x in (p, norm(detail) if detail is not None else None) if x))
+        return ":".join(x for x in (kind, p, detail if detail is not None else name) if x)
     dbg('passdrive: %d programs' % len(programs))
-    res = L.run_passdrive(tools["passdrive"], programs, passes)
+    res = L.run_passdrive(tools["passdrive"], programs, passes_of)
     dbg('passdrive done')
 
     stats = {p: {"same": 0, "changed": 0, "errors": 0, "idempotent": 0, "model_equal": 0, "model_out_of_fragment": 0,
@@ -187,28 +265,31 @@ def run(ctx):
             n_lower_fail += 1
             if r is not None and ("crash" in r or "panic" in r):
                 ctx.violation("passdrive crashed on %s: %s" % (name, (r.get("panic") or r.get("crash"))), files={"input.wgsl": src},
-                              key="crash:%s" % name)
+                              key=vkey("crash", None, name, (r.get("panic") or r.get("crash")) if name in gen_by_name else None))
+            elif name in gen_by_name:
+                ctx.violation("naga rejects the valid generated program %s at stage %s: %s" % (name, (r or {}).get("stage"), (r or {}).get("err")),
+                              files={"input.wgsl": src}, key=vkey("rejected", None, name, (r or {}).get("err")))
             continue
         usable[name] = r
         oof = L.out_of_model_fragment(r["before"])
         hyp_jobs.append({"pass": "hyp", "ir": L.raw(r["before"])})
         hyp_meta.append(name)
-        shown = {}
-        for p in passes:
+        isgen = name in gen_by_name
+        for p in passes_of(name):
             pr = r["passes"].get(p) or {}
             st = stats[p]
             raw = p.startswith("raw:")
-            before = r.get("before_raw") if raw else pr.get("before", r["before"])
+            before = pr.get("before", r.get("before_raw")) if raw else pr.get("before", r["before"])
             if "panic" in pr or "panic2" in pr:
                 st["errors"] += 1
                 ctx.violation("pass %s panics on %s: %s" % (p, name, pr.get("panic") or pr.get("panic2")),
-                              files={"input.wgsl": src}, key="panic:%s:%s" % (p, name))
+                              files={"input.wgsl": src}, key=vkey("panic", p, name, (pr.get("panic") or pr.get("panic2")) if isgen else None))
                 continue
             if "err" in pr or "err2" in pr:
                 st["errors"] += 1
                 if not raw or before is not None:
                     ctx.violation("pass %s fails on %s: %s" % (p, name, pr.get("err") or pr.get("err2")),
-                                  files={"input.wgsl": src}, key="error:%s:%s" % (p, name))
+                                  files={"input.wgsl": src}, key=vkey("error", p, name, (pr.get("err") or pr.get("err2")) if isgen else None))
                 continue
             if before is None:
                 continue
@@ -219,23 +300,35 @@ def run(ctx):
                 st["idempotent"] += 1
             elif p not in NO_IDEMPOTENCE:
                 cause = reorder_cause(after, pr.get("after2")) if pass_model_name(p) in ("reorder_types", "lower_pipeline", "unused_pipeline") else None
+                if cause is None and pass_model_name(p) in ("compact_types", "lower_pipeline", "unused_pipeline"):
+                    cause = type_chain_cause(after, pr.get("after2"))
                 ctx.violation("pass %s is not idempotent on %s: applying it a second time changes the module again%s"
-                              % (p, name, " (Module.TypeUseOrder still holds the pre-reordering handles)" if cause else ""),
+                              % (p, name, {"stale-type-use-order": " (Module.TypeUseOrder still holds the pre-reordering handles)",
+                                           "dead-type-chain": " (a type referenced only by a type the first application removed goes in the second)"}.get(cause, "")),
                               files={"input.wgsl": src, "after.json": json.dumps(after), "after2.json": json.dumps(pr.get("after2"))},
-                              key="idem:%s:%s" % (p, cause or name))
+                              key="idem:%s:%s" % (p, cause) if cause else
+                              vkey("idem", p, name, (L.first_diff(after, pr.get("after2")) or ("?",))[0] if isgen else None))
             # naga's own validator
             if (not raw or p == "raw:lower_pipeline") and pr.get("validate") and not r.get("validate_before"):
                 ctx.violation("module is rejected by ir.Validate after pass %s on %s: %s" % (p, name, pr["validate"][:3]),
-                              files={"input.wgsl": src}, key="validate:%s:%s" % (p, name))
+                              files={"input.wgsl": src}, key=vkey("validate", p, name, pr["validate"][0] if isgen else None))
             # model tie
             if p in MODELLED:
                 if oof:
                     st["model_out_of_fragment"] += 1
+                elif isgen and pr.get("same") and not ctx.thorough:
+                    pass        # quick tier: the tie is evaluated where the Go pass changed a generated module
                 else:
                     model_jobs.append({"pass": pass_model_name(p), "ir": L.raw(before, True)})
                     model_jobs.append({"pass": "id", "ir": L.raw(after, True)})
                     model_meta.append((name, p))
-    ctx.cov["programs"] = {"hand_written": len(c13progs.PROGRAMS), "corpus": len(corp), "not_lowered": n_lower_fail}
+    ctx.cov["programs"] = {"hand_written": len(hand), "corpus": len(corp), "generated_general": n_general,
+                           "generated_loopfree": n_loopfree, "not_lowered": n_lower_fail}
+    feat = {}
+    for c in gen_cases:
+        for f in c13gen.features(c["prog"]):
+            feat[f] = feat.get(f, 0) + 1
+    ctx.cov["generated_constructs"] = dict(sorted(feat.items()))
 
     # ---- C tie
     tie_broken = {}
@@ -270,9 +363,11 @@ def run(ctx):
     run_jobs, run_meta = [], []
     rngi = ctx.rng.fork("inputs")
     modes = ["small", "pool"] if not ctx.thorough else ["small", "pool", "small", "pool"]
+    srcs = dict(programs)
     for name, r in usable.items():
-        src = dict(programs)[name]
-        for p in passes:
+        src = srcs[name]
+        gcase = gen_by_name.get(name)
+        for p in passes_of(name):
             pr = r["passes"].get(p) or {}
             raw = p.startswith("raw:")
             if "err" in pr or "panic" in pr or pr.get("same"):
@@ -284,23 +379,50 @@ def run(ctx):
             after_names = [g["Name"] for g in after["GlobalVariables"]]
             if len(after["EntryPoints"]) != len(before["EntryPoints"]):
                 ctx.violation("pass %s changes the number of entry points of %s" % (p, name), files={"input.wgsl": src},
-                              key="eps:%s:%s" % (p, name))
+                              key=vkey("eps", p, name, "" if gcase else None))
                 continue
             for epi, ep in enumerate(before["EntryPoints"]):
-                for mi, mode in enumerate(modes):
-                    try:
-                        gl, args = L.make_inputs(before, ep, rngi.fork("%s/%s/%d/%d" % (name, p, epi, mi)), mode)
-                    except (L.Unsupported, IndexError, KeyError, TypeError):
-                        continue        # ill-formed or unsupported module: nothing to run (the model tie judges it)
+                if gcase:
+                    inputs = [(i["globals"], i["args"]) for i in gcase["inputs"]]
+                else:
+                    inputs = []
+                    for mi, mode in enumerate(modes):
+                        try:
+                            inputs.append(L.make_inputs(before, ep, rngi.fork("%s/%s/%d/%d" % (name, p, epi, mi)), mode))
+                        except (L.Unsupported, IndexError, KeyError, TypeError):
+                            continue        # ill-formed or unsupported module: nothing to run (the model tie judges it)
+                fuel = GEN_FUEL if gcase else FUEL
+                for gl, args in inputs:
                     len_ = p in LENIENT
-                    run_jobs.append(L.run_job(before, epi, gl, args, FUEL, len_))
-                    run_jobs.append(L.run_job(after, epi, gl, args, FUEL, len_))
+                    run_jobs.append(L.run_job(before, epi, gl, args, fuel, len_))
+                    run_jobs.append(L.run_job(after, epi, gl, args, fuel, len_))
                     run_meta.append((name, p, epi, ep["Name"], gl, args, after_names))
     dbg('differential runs: %d jobs' % len(run_jobs))
     rout = L.run_model_parallel(exe, run_jobs)
     dbg('differential runs done')
+
+    def judge_after(b, job_after, fuel):
+        """AFTER did not produce a result although BEFORE did -> None (not comparable: outside the fragment, needs
+        more fuel) or (class, message)"""
+        msg = b.get("msg", "")
+        if b.get("kind") == "fail" and any(m in msg for m in UNMODELLED_MARKERS):
+            return None
+        if b.get("kind") == "limit":
+            return None
+        if b.get("kind") == "outoffuel":
+            # inlined bodies and wrapper loops consume more statement fuel: judge with 10x the fuel
+            j = dict(job_after)
+            j["fuel"] = 10 * fuel
+            b2 = L.run_model_parallel(exe, [j], workers=1)[0]
+            if b2.get("ok") or b2.get("kind") != "outoffuel":
+                return None                               # terminated with more fuel: not compared (rare)
+            return "after-no-result", "no result within 10x the fuel BEFORE needed"
+        return "after-fails", msg
+
     diff_found = set()
+    gen_diffs = []      # disagreements on generated programs, classified and reported below
     before_status = {"ok": 0, "fail": 0, "outoffuel": 0, "decode": 0}
+    gen_before_status = {"ok": 0, "fail": 0, "outoffuel": 0, "decode": 0}
     for i, (name, p, epi, epname, gl, args, after_names) in enumerate(run_meta):
         a, b = rout[2 * i], rout[2 * i + 1]
         r = usable[name]
@@ -308,28 +430,19 @@ def run(ctx):
         raw = p.startswith("raw:")
         before = r.get("before_raw_fin") if raw else pr.get("before", r["before"])
         after = pr.get("after_fin") if raw else pr.get("after")
-        before_status["ok" if a.get("ok") else a.get("kind", "fail")] = before_status.get("ok" if a.get("ok") else a.get("kind", "fail"), 0) + 1
+        bs = gen_before_status if name in gen_by_name else before_status
+        bs["ok" if a.get("ok") else a.get("kind", "fail")] = bs.get("ok" if a.get("ok") else a.get("kind", "fail"), 0) + 1
         if not a.get("ok"):
             continue
         st = stats[p]
-        what = None
+        what = kind = None
+        fuel = GEN_FUEL if name in gen_by_name else FUEL
         if not b.get("ok"):
-            msg = b.get("msg", "")
-            if b.get("kind") == "fail" and any(m in msg for m in UNMODELLED_MARKERS):
+            j = judge_after(b, run_jobs[2 * i + 1], fuel)
+            if j is None:
                 st["after_out_of_fragment"] += 1
                 continue
-            if b.get("kind") == "limit":
-                st["after_out_of_fragment"] += 1
-                continue
-            if b.get("kind") == "outoffuel":
-                # inlined bodies and wrapper loops consume more statement fuel: judge with 10x the fuel
-                j = dict(run_jobs[2 * i + 1])
-                j["fuel"] = 10 * FUEL
-                b2 = L.run_model_parallel(exe, [j])[0]
-                if b2.get("ok") or b2.get("kind") != "outoffuel":
-                    st["after_out_of_fragment"] += 1     # terminated with more fuel: not compared (rare)
-                    continue
-                msg = "no result within 10x the fuel BEFORE needed"
+            kind, msg = j
             what = "BEFORE terminates with a result, AFTER %s (%s)" % (b.get("kind"), msg)
             if p == "stage:sroa" and b.get("kind") == "fail" and sroa_cause(before, after, msg):
                 diff_found.add((name, p))
@@ -338,40 +451,110 @@ def run(ctx):
                     ctx.violation("pass stage:sroa produces an ill-typed expression on %s (and on every function with a whole-struct load of a "
                                   "decomposed local): the Load is rewritten to ExprCompose without Type, so it names type 0; the reference "
                                   "interpreter stops with '%s'" % (name, msg),
-                                  files={"input.wgsl": dict(programs)[name], "after.json": json.dumps(after)},
+                                  files={"input.wgsl": srcs[name], "after.json": json.dumps(after)},
                                   key="diff:stage:sroa:compose-type-zero")
                 st["after_out_of_fragment"] += 1
                 continue
         else:
             st["runs_compared"] += 1
-            ga, gb = L.named_globals(before, a), L.named_globals(after, b)
-            bad = [n for n in gb if ga.get(n) != gb[n]]
-            if bad:
-                what = "final contents of global '%s' differ: BEFORE %s, AFTER %s" % (bad[0], json.dumps(ga.get(bad[0]))[:300], json.dumps(gb[bad[0]])[:300])
-            elif a.get("ret") != b.get("ret"):
-                what = "returned values differ: BEFORE %s, AFTER %s" % (json.dumps(a.get("ret"))[:300], json.dumps(b.get("ret"))[:300])
+            d = compare_runs(before, after, a, b, gl)
+            if d:
+                kind, what = d
             else:
                 st["runs_equal"] += 1
         if what and p == "dxil" and any((name, q) in diff_found for q in ("dxil_prepare", "stage:sroa", "stage:mem2reg", "stage:dce")):
             continue      # the end-to-end pipeline differs because one of its stages (already reported) does
         if what and (name, p) not in diff_found:
             diff_found.add((name, p))
-            src = dict(programs)[name]
+            if name in gen_by_name:
+                gen_diffs.append((name, p, epi, epname, gl, args, kind, what, before, after))
+                continue
+            src = srcs[name]
             ctx.violation("pass %s changes the behaviour of entry point %s of %s: %s" % (p, epname, name, what),
                           files={"input.wgsl": src, "before.json": json.dumps(before), "after.json": json.dumps(after),
                                  "inputs.json": json.dumps({"ep": epi, "globals": gl, "args": args, "fuel": FUEL})},
                           key="diff:%s:%s" % (p, name), broken=tie_broken.get((name, p)))
     ctx.cov["reference_runs_before"] = before_status
+    ctx.cov["reference_runs_before_generated"] = gen_before_status
+
+    # ---- disagreements on generated programs: attribute to a recorded finding where a recogniser applies, else
+    #      shrink the program while the same pass still disagrees in the same way; key = pass + class + constructs left
+    def outcome(src, p, gl, args, epi=0):
+        """class of disagreement of pass p on program text src with these inputs ("agree", "same", "rejected", ...)"""
+        r1 = L.run_passdrive(tools["passdrive"], [("x", src)], [p], workers=1).get("x") or {}
+        pr = (r1.get("passes") or {}).get(p) or {}
+        if "before" not in r1 or "err" in pr or "panic" in pr:
+            return "rejected"
+        if pr.get("same"):
+            return "same"
+        raw = p.startswith("raw:")
+        before = r1.get("before_raw_fin") if raw else pr.get("before", r1["before"])
+        after = pr.get("after_fin") if raw else pr.get("after")
+        if before is None or after is None:
+            return "rejected"
+        jobs = [L.run_job(before, epi, gl, args, GEN_FUEL, p in LENIENT), L.run_job(after, epi, gl, args, GEN_FUEL, p in LENIENT)]
+        a, b = L.run_model_parallel(exe, jobs, workers=1)
+        if not a.get("ok"):
+            return "before-" + str(a.get("kind"))
+        if not b.get("ok"):
+            j = judge_after(b, jobs[1], GEN_FUEL)
+            return j[0] if j else "incomparable"
+        d = compare_runs(before, after, a, b, gl)
+        return d[0] if d else "agree"
+
+    shrinks_left = [ctx.scale(4, 12)]
+    shrunk = {}          # (program, class) -> shrunk AST
+    order = {p: i for i, p in enumerate(passes)}
+    n_per_pass = {}
+    for g in gen_diffs:
+        n_per_pass[g[1]] = n_per_pass.get(g[1], 0) + 1
+    reported_pass = set()
+    for (name, p, epi, epname, gl, args, kind, what, before, after) in sorted(gen_diffs, key=lambda g: (order[g[1]], g[0])):
+        case = gen_by_name[name]
+        if p == "stage:dce":
+            cause = c13gen.dce_cause(before, after)
+            if cause:
+                ctx.violation("pass stage:dce changes the behaviour of generated program %s (%s): %s" % (name, cause, what),
+                              files={"input.wgsl": case["src"], "before.json": json.dumps(before), "after.json": json.dumps(after),
+                                     "inputs.json": json.dumps({"ep": epi, "globals": gl, "args": args, "fuel": GEN_FUEL})},
+                              key="gen:diff:stage:dce:%s" % cause)
+                continue
+        if p in reported_pass:
+            continue          # one report per pass: the first disagreeing program (in program order) stands for the others
+        reported_pass.add(p)
+        small = None
+        for (n2, k2), sp in shrunk.items():
+            # the same program already shrunk for an earlier pass (compact_unused -> unused_pipeline, inline -> dxil_prepare)
+            if n2 == name and k2 == kind and outcome(c13gen.wgslgen.render(sp), p, gl, args, epi) == kind:
+                small = sp
+        note = ""
+        if small is None and shrinks_left[0] > 0:
+            shrinks_left[0] -= 1
+            dbg("shrinking %s for %s (%s)" % (name, p, kind))
+            small = c13gen.shrink_failure(case, lambda _pr, s_: outcome(s_, p, gl, args, epi), kind, c13gen.Budget(ctx.scale(160, 600)))
+            shrunk[(name, kind)] = small
+            dbg("shrinking done")
+        elif small is None:
+            small, note = case["prog"], " (not shrunk: shrinking budget of this run used up)"
+        feats = c13gen.key_features(small)
+        key = "gen:diff:%s:%s:%s" % (p, kind, "+".join(feats))
+        ssrc = c13gen.wgslgen.render(small)
+        ctx.violation("pass %s changes the behaviour of entry point %s of a generated program (%s, %d generated program(s) disagree under this "
+                      "pass); shrunk to a program with %s%s: %s" % (p, epname, name, n_per_pass[p], ", ".join(feats), note, what),
+                      files={"input.wgsl": ssrc, "original.wgsl": case["src"], "before.json": json.dumps(before), "after.json": json.dumps(after),
+                             "inputs.json": json.dumps({"ep": epi, "globals": gl, "args": args, "fuel": GEN_FUEL})},
+                      key=key, broken=tie_broken.get((name, p)))
+    ctx.cov["generated_disagreements"] = len(gen_diffs)
 
     # ---- broken ties without a concrete behavioural difference
     for (name, p), why in sorted(tie_broken.items()):
         if (name, p) in diff_found:
             continue
-        src = dict(programs)[name]
+        src = srcs[name]
         ctx.violation("the Gallina model of %s (Passes/Compact.v) and the Go pass disagree on %s: %s\n"
                       "(the theorems of Props/C13.v are about the model; no input on which BEFORE and AFTER behave differently was found)"
                       % (p, name, why), files={"input.wgsl": src}, found_input=False,
-                      key="model:%s:%s" % (p, name), broken="correspondence model/implementation for %s" % p)
+                      key=vkey("model", p, name, why.split(": model")[0] if name in gen_by_name else None), broken="correspondence model/implementation for %s" % p)
     if broken:
         ctx.violation(broken, found_input=False, broken=broken, key="coq")
 
